@@ -1,6 +1,8 @@
 package components
 
 import (
+	"strings"
+
 	"github.com/scipipe/scipipe"
 )
 
@@ -64,20 +66,55 @@ func vxBuild10(upTo string) *scipipe.Workflow {
 	tag1.In().From(src1.Out())
 	tag2.In().From(src2.Out())
 	merge := wf.NewProc("merge", "vcmd r:{i:a} r:{i:b} w:{o:out} w:{o:side} # {p:p}")
+	if vxGet("prepend") == 1 {
+		merge.Prepend = "vcmd x:pre.txt &&" // e.g. a job-scheduler or environment prefix
+	}
 	merge.SetOut("out", "m.txt")
 	merge.SetOut("side", "side.txt")
 	merge.In("a").From(tag1.Out())
 	merge.In("b").From(tag2.Out())
 	merge.InParam("p").FromStr("7")
 	fin := wf.NewProc("fin", "vcmd r:{i:in} w:{o:out}")
-	fin.SetOut("out", "f.txt")
+	fin.SetOut("out", vxFinPath())
 	fin.In("in").From(merge.Out("out"))
 	return wf
 }
 
+// vxFinPath: the final output's path shape (plain / relative to the parent / absolute).
+func vxFinPath() string {
+	switch vxGet("shape") {
+	case 1:
+		vxFSMkdirAll("/up")
+		return "../up/f.txt"
+	case 2:
+		vxFSMkdirAll("/abs/d")
+		return "/abs/d/f.txt"
+	}
+	return "f.txt"
+}
+
+func vxMergeCmd() string {
+	c := "vcmd r:../in1.txt r:../in2.txt w:m.txt w:side.txt # 7"
+	if vxGet("prepend") == 1 {
+		c = "vcmd x:pre.txt && " + c
+	}
+	return c
+}
+
+// vxExecuted: the command text was really handed to the shell (between `cd <tmp> &&` and
+// `&& cd ..`) in this history.
+func vxExecuted(cmd string) bool {
+	for i := 0; i < vxEvCount(); i++ {
+		if vxEvOp(i) == "exec" && strings.HasSuffix(vxEvArg(i, 0), " && "+cmd+" && cd ..") && strings.HasPrefix(vxEvArg(i, 0), "cd ") {
+			return true
+		}
+	}
+	return false
+}
+
 func vxCheckMergeRecord(r *scipipe.AuditInfo, id string) {
 	vxAssert(r.ProcessName == "merge", id+".process-name")
-	vxAssert(r.Command == "vcmd r:../in1.txt r:../in2.txt w:m.txt w:side.txt # 7", id+".command")
+	vxAssert(r.Command == vxMergeCmd(), id+".command")
 	vxAssert(len(r.Params) == 1 && r.Params["p"] == "7", id+".params")
 	vxAssert(len(r.OutFiles) == 2 && r.OutFiles["out"] == "m.txt" && r.OutFiles["side"] == "side.txt", id+".outfiles")
 	vxAssert(r.Tags["k1"] == "v1" && r.Tags["k2"] == "v2", id+".upstream-tags-present")
@@ -89,6 +126,10 @@ func vxCheckMergeRecord(r *scipipe.AuditInfo, id string) {
 	if u1 != nil && u2 != nil {
 		vxAssert(u1.Tags["k1"] == "v1" && u2.Tags["k2"] == "v2", id+".source-tags")
 		vxAssert(len(u1.Upstream) == 0 && len(u2.Upstream) == 0, id+".sources-are-roots")
+		// an embedded ancestor record is the ancestor's own record: exactly its tags, and
+		// identical to the record next to the ancestor's file
+		vxAssert(len(u1.Tags) == 1 && len(u2.Tags) == 1, id+".source-tags-exact")
+		vxAssert(vxSameRecord(u1, vxAudit("in1.txt"), true) && vxSameRecord(u2, vxAudit("in2.txt"), true), id+".source-record-identical-to-disk")
 	}
 }
 
@@ -103,14 +144,16 @@ func VxH10() {
 	vxAssert(kind == "returned", "C10.run-completes")
 	vxReach("ran")
 	// every finalized output has its record
-	for _, o := range []string{"m.txt", "side.txt", "f.txt"} {
+	fp := vxFinPath()
+	for _, o := range []string{"m.txt", "side.txt", fp} {
 		vxAssert(vxFSKind(o) == vxFile && vxFSKind(o+".audit.json") == vxFile, "C10.every-output-has-a-record")
 	}
-	m, side, f := vxAudit("m.txt"), vxAudit("side.txt"), vxAudit("f.txt")
+	m, side, f := vxAudit("m.txt"), vxAudit("side.txt"), vxAudit(fp)
 	vxCheckMergeRecord(m, "C10.merge")
 	vxAssert(vxSameRecord(m, side, true), "C10.same-record-next-to-every-output")
 	vxAssert(f.ProcessName == "fin", "C10.fin.process-name")
-	vxAssert(f.Command == "vcmd r:../m.txt w:f.txt", "C10.fin.command")
+	wantFin := map[int]string{0: "vcmd r:../m.txt w:f.txt", 1: "vcmd r:../m.txt w:__parent__up/f.txt", 2: "vcmd r:../m.txt w:__fsroot__/abs/d/f.txt"}[vxGet("shape")]
+	vxAssert(f.Command == wantFin, "C10.fin.command")
 	vxAssert(f.Tags["k1"] == "v1" && f.Tags["k2"] == "v2", "C10.fin.upstream-tags-present")
 	vxAssert(vxNot(f.FinishTime.Before(f.StartTime)), "C10.fin.start-before-finish")
 	vxAssert(len(f.Upstream) == 1 && f.Upstream["m.txt"] != nil, "C10.fin.upstream-keys")
@@ -120,11 +163,7 @@ func VxH10() {
 		vxCheckMergeRecord(f.Upstream["m.txt"], "C10.fin.upstream")
 	}
 	// the commands recorded are the commands executed
-	cmds := map[string]bool{}
-	for i := 0; i < vxInvCount(); i++ {
-		cmds[vxInvCmd(i)] = true
-	}
-	vxAssert(cmds[m.Command] && cmds[f.Command] && vxInvCount() == 2, "C10.recorded-command-is-executed-command")
+	vxAssert(vxExecuted(m.Command) && vxExecuted(f.Command), "C10.recorded-command-is-executed-command")
 }
 
 // VxH11: provenance survives restarts. The same workflow (i) in one go and (ii) split:
@@ -178,10 +217,23 @@ func VxH11() {
 	if mBefore {
 		onDisk = vxReadAudit("m.txt")
 	}
+	// KF-C03-2 (listed): MapToTags rewrites the audit file of an existing file in place; a
+	// kill between truncation and write leaves an empty record, which every later run
+	// refuses to load
+	truncated := false
+	for _, src := range []string{"in1.txt", "in2.txt"} {
+		if vxFSKind(src+".audit.json") == vxFile && vxReadAudit(src) == nil {
+			truncated = true
+		}
+	}
 	n1 := vxInvCount()
 	fBefore := vxFSKind("f.txt") == vxFile
 	wf2 := vxBuild10("")
 	k2 := vxRun(func() { wf2.Run() })
+	if truncated {
+		vxKnown(k2 == "returned", "KF-C03-2")
+		return
+	}
 	if mode == 2 && (vxFSKind("m.txt") == vxFile) != (vxFSKind("side.txt") == vxFile) && k2 != "returned" {
 		return // KF-C03-1 territory (two outputs, killed between the renames); see C03
 	}
@@ -241,4 +293,49 @@ func VxH10kill() {
 			}
 		}
 	}
+}
+
+
+// VxH03tag: restart after a crash for a workflow with a tagging component and a
+// Concatenator (components that write to final locations themselves).
+func VxH03tag() {
+	vxCmdFree(false, false)
+	build := func() *scipipe.Workflow {
+		wf := scipipe.NewWorkflowCustomLogFile("w", 4, "log/w.log")
+		src := NewFileSource(wf, "src", "in1.txt", "in2.txt")
+		tg := NewMapToTags(wf, "tag", func(ip *scipipe.FileIP) map[string]string { return map[string]string{"k": "v"} })
+		tg.In().From(src.Out())
+		p := wf.NewProc("p", "vcmd r:{i:in} w:{o:out}")
+		p.SetOut("out", "{i:in}.p")
+		p.In("in").From(tg.Out())
+		cc := NewConcatenator(wf, "cc", "all.txt")
+		cc.In().From(p.Out("out"))
+		return wf
+	}
+	vxFSPutData("in1.txt", "one")
+	vxFSPutData("in2.txt", "two")
+	vxKillAt(vxInt("k1", 0, vxGet("N")))
+	k1 := vxRun(func() { build().Run() })
+	vxAssume(k1 == "killed")
+	vxKillAt(-1)
+	vxFSRemoveTemp()
+	truncated := false
+	for _, src := range []string{"in1.txt", "in2.txt"} {
+		if vxFSKind(src+".audit.json") == vxFile && vxReadAudit(src) == nil {
+			truncated = true
+		}
+	}
+	k2 := vxRun(func() { build().Run() })
+	vxReach("reran")
+	if truncated {
+		vxKnown(k2 == "returned", "KF-C03-2")
+		return
+	}
+	vxAssert(k2 == "returned", "C03.tag.restart-completes")
+	for _, o := range []string{"in1.txt.p", "in2.txt.p"} {
+		vxAssert(vxFSKind(o) == vxFile && vxFSOrigin(o) == "cmd", "C03.tag.converges")
+	}
+	// the concatenation holds one line per input (the command model's files carry no
+	// lines; what matters here is that the component did its work again: two lines)
+	vxAssert(len(vxFSLines("all.txt")) == 2 && !vxFSHasPartialLine("all.txt"), "C03.tag.component-output-complete")
 }
